@@ -715,6 +715,8 @@ impl CircuitBuilder {
     ) -> CachedPanicResult {
         let result = self.mux_uncached_panic(condition, t, f);
         let mut cache = HashMap::new();
+        #[cfg(feature = "verif_hooks")]
+        crate::verif_hooks::hash_iter("circuit::mux_panic", cache_t.keys().chain(cache_f.keys()));
         // Merge the cached panics in ascending order of their keys (not in hash order), so that
         // the gates emitted here, and thus the circuit, do not depend on the hash seed.
         let keys: std::collections::BTreeSet<&usize> = cache_t.keys().chain(cache_f.keys()).collect();
